@@ -325,6 +325,8 @@ func main() {
 		exporterChild(os.Args[2:])
 	case "latereg": // helper child for C14
 		lateRegChild(os.Args[2:])
+	case "hexhash": // helper child for C14
+		hexHashChild(os.Args[2:])
 	default:
 		fmt.Fprintln(os.Stderr, "unknown mode")
 		os.Exit(2)
